@@ -11,7 +11,9 @@ untouched.  A hang is a liveness violation."""
 import os
 import signal
 
-from simkit import osseam
+from dromedary.errors import NoSuchFile
+
+from simkit import findings, osseam
 
 from . import xformsim
 
@@ -275,14 +277,42 @@ def tree_view(tree, listing, with_ids, versioned_dirs=True):
             fid = f.decode("utf-8", "replace") if isinstance(f, bytes) else f
         content = ""
         ex = None
-        if kind == "file":
-            content = tree.get_file_text(path).decode("latin-1")
-            if versioned:
-                ex = bool(tree.is_executable(path))
-        elif kind == "symlink":
-            content = tree.get_symlink_target(path)
+        try:
+            if kind == "file":
+                content = tree.get_file_text(path).decode("latin-1")
+            elif kind == "symlink":
+                content = tree.get_symlink_target(path)
+        except (NoSuchFile, OSError) as e:
+            content = f"<unreadable: {type(e).__name__}>"
+        if kind == "file" and versioned:
+            ex = bool(tree.is_executable(path))
         out[path] = [kind, content, versioned, fid, ex]
     return out
+
+
+def moved_unchanged(tt):
+    """{final path: kind} of tree entries whose path changes (also through a moved
+    ancestor) while their content is kept; plus, in moved_from, final path -> tree path."""
+    from breezy.transform import FinalPaths
+
+    fp = FinalPaths(tt)
+    out = {}
+    moved_from.clear()
+    for tree_path, trans_id in sorted(tt._tree_path_ids.items()):
+        if trans_id in tt._new_contents or trans_id in tt._removed_contents or tree_path == "":
+            continue
+        try:
+            final = fp.get_path(trans_id)
+        except Exception:  # noqa: BLE001
+            continue
+        kind = tt.tree_kind(trans_id)
+        if final != tree_path and kind is not None:
+            out[final] = kind
+            moved_from[final] = tree_path
+    return out
+
+
+moved_from = {}
 
 
 def preview_listing(pt):
@@ -301,9 +331,11 @@ def disk_listing(root):
     return out
 
 
-def versioned_set(tree, with_ids):
+def versioned_set(tree, with_ids, versioned_dirs=True):
     out = []
     for path, ie in tree.iter_entries_by_dir():
+        if ie.kind == "directory" and not versioned_dirs:
+            continue  # git: a directory is listed only while it holds versioned files
         f = ie.file_id
         out.append([path, (f.decode("utf-8", "replace") if isinstance(f, bytes) else str(f)) if with_ids else ""])
     return sorted(out)
@@ -354,6 +386,7 @@ def execute(sim, plan):
     tt = tree.transform()
     malformed = None
     crashed = None
+    moved = {}
     try:
         done = run_script(sim, tt, plan, fmt)
         signal.alarm(HANG_S)
@@ -371,7 +404,8 @@ def execute(sim, plan):
             pt = tt.get_preview_tree()
             pre_list = preview_listing(pt)
             pre = tree_view(pt, pre_list, with_ids, vdirs)
-            pre_versioned = versioned_set(pt, with_ids)
+            pre_versioned = versioned_set(pt, with_ids, vdirs)
+            moved = moved_unchanged(tt)
             stage = "apply"
             try:
                 tt.apply()
@@ -392,12 +426,13 @@ def execute(sim, plan):
     if crashed is not None:
         e, where = crashed
         sim.probe("resolver_crash")
+        sim.probe(f"resolver_crash_{where}_{type(e).__name__}")
         sim.event("outcome", "crashed", where, type(e).__name__)
         s = xformsim.tree_state(root)
         touched = "" if s == s0 else " AND the tree changed"
         sim.fail(
             "resolve_outcome",
-            ["resolve_outcome", "none", f"{where}:{type(e).__name__}" + (":tree-changed" if touched else "")],
+            ["resolve_outcome", "none", "resolver-internal-error" + (":tree-changed" if touched else "")],
             f"resolve_conflicts neither produced a conflict-free transform nor reported MalformedTransform: {where} raised {type(e).__name__}: {e}{touched} [conflicts met: {sorted(set(seen))}]",
         )
     if malformed is not None:
@@ -416,27 +451,57 @@ def execute(sim, plan):
     with wt.lock_read():
         post_list = disk_listing(root)
         post = tree_view(wt, post_list, with_ids, vdirs)
-        post_versioned = versioned_set(wt, with_ids)
-    if pre != post:
-        diffs = []
-        fields = ["kind", "contents", "versioned", "file id", "executable"]
-        what = set()
-        for p in sorted(set(pre) | set(post)):
-            a, b = pre.get(p), post.get(p)
-            if a == b:
+        post_versioned = versioned_set(wt, with_ids, vdirs)
+    fields = ["kind", "contents", "versioned", "file id", "executable"]
+    fam = {}  # family -> [descriptions]
+
+    def add(family, text):
+        fam.setdefault(family, []).append(text)
+
+    for p in sorted(set(pre) | set(post)):
+        a, b = pre.get(p), post.get(p)
+        if a == b:
+            continue
+        if a is None or b is None:
+            add("paths", f"{p!r}: preview {'has no such path' if a is None else a[:1]} / applied {'has no such path' if b is None else b[:1]}")
+            continue
+        for i, f in enumerate(fields):
+            if a[i] == b[i]:
                 continue
-            if a is None or b is None:
-                what.add("paths")
-                diffs.append(f"{p!r}: preview {'has no such path' if a is None else a[:1]} / applied {'has no such path' if b is None else b[:1]}")
+            text = f"{p!r} {f}: preview {a[i]!r} / applied {b[i]!r}"
+            under_moved_dir = any(p.startswith(d + "/") for d, k in moved.items() if k == "directory")
+            if f == "contents" and str(a[i]).startswith("<unreadable") and p in moved:
+                # known family: the preview looks a moved-but-unchanged entry up at its NEW path in the old tree
+                add(f"{fmt}:preview-read:moved-unchanged", text)
+            elif f == "executable" and p in moved and a[i] is False and b[i] is True:
+                add(f"{fmt}:executable:moved-unchanged", text)
+            elif fmt == "git" and f in ("versioned", "executable") and under_moved_dir and a[2] is True and b[2] is False:
+                add("git:child-of-moved-directory", text)
             else:
-                for i, f in enumerate(fields):
-                    if a[i] != b[i]:
-                        what.add(f)
-                        diffs.append(f"{p!r} {f}: preview {a[i]!r} / applied {b[i]!r}")
-        sim.fail("preview_equals_applied", ["preview_equals_applied", "none", "+".join(sorted(what))], "; ".join(diffs[:8]) + f" [conflicts resolved: {sorted(set(seen))}]")
-    if pre_versioned != post_versioned:
-        sim.fail(
-            "preview_equals_applied",
-            ["preview_equals_applied", "none", "versioned-entries"],
-            "versioned entries differ: " + xformsim.diff_maps([[p, f] for p, f in pre_versioned], [[p, f] for p, f in post_versioned]) + f" [conflicts resolved: {sorted(set(seen))}]",
-        )
+                add(f, text)
+    pv, qv = {e[0]: e[1] for e in pre_versioned}, {e[0]: e[1] for e in post_versioned}
+    for p in sorted(set(pv) | set(qv)):
+        if pv.get(p) == qv.get(p):
+            continue
+        text = f"versioned entry {p!r}: preview {pv.get(p)!r} / applied {qv.get(p)!r}"
+        in_moved_dir = any((p.startswith(d + "/") or tp.startswith(td + "/")) for d, k in moved.items() if k == "directory" for tp in [moved_from.get(p, p)] for td in [moved_from.get(d, d)])
+        if fmt == "git" and (in_moved_dir or any(p.startswith(td + "/") for td in moved_from.values())):
+            add("git:child-of-moved-directory", text)
+        else:
+            add("versioned-entries", text)
+    if not fam:
+        return
+    known = findings.load(PROPERTY)
+    unknown = []
+    for family in sorted(fam):
+        sig = ["preview_equals_applied", "none", family]
+        sim.probe("mismatch_" + family)
+        if findings.match(known, sig) is not None:
+            sim.notes.setdefault("known", []).append(sig)
+        else:
+            unknown.append(family)
+    if unknown:
+        # families that are not separately recognised causes come first: they must stay visible
+        unknown.sort(key=lambda f: (":" in f, f))
+        family = unknown[0]
+        sim.fail("preview_equals_applied", ["preview_equals_applied", "none", family], "; ".join(fam[family][:6]) + f" [conflicts resolved: {sorted(set(seen))}; other mismatch families in this run: {[f for f in fam if f != family]}]")
